@@ -104,6 +104,7 @@ class Keccak(object):
                 M = M[:needed//8]+bytes([b.ival])
         r = self.r
         br,rr = divmod(r,8)
+        if br==0: br = 1
         P = BytesIO(M)
         # init iterator loop:
         Pi = P.read(br)
@@ -114,7 +115,7 @@ class Keccak(object):
             if len(Pb)>=needed:
                 Pb.size=needed
                 P.read() # consume all stream to exit loop
-            if len(Pb)>=r:
+            while len(Pb)>=r:
                 yield Pb[:r]
                 needed -= r
                 Pb = Pb[r:]
